@@ -8,6 +8,7 @@ CONSTANTS
   MaxSurplus = 3
   MaxKw = 4
   MaxBad = 9
+  Specials = {"n", "z", "o"}
   Extras = {"x1", "x2", "x3"}
   VarNames = TRUE
   Mode = "emit"
